@@ -116,7 +116,7 @@ def check(run):
     thorough = run.tier == "thorough"
     r = gen.rng_for(run.seed, "c15")
     specs = []
-    for i in range(6000 if thorough else 1200):
+    for i in range(8000 if thorough else 2500):
         specs.append(build(r, "E%d" % i, generics=r.choice([None, None, None, "T", "a", "N", "TU", "Tw", "aTw", "I", "aI", "Tdef", "TwU"])))
     units = [shards.Unit("u_" + s.name.lower(), glue(s, r), meta={"enum_src": s.render()}, sig=s.signature()) for s in specs]
     run.rule = RULE
